@@ -118,9 +118,21 @@ pub fn panic_class(info: &PanicInfo) -> String {
         .next()
         .unwrap_or(&info.file)
         .to_string();
-    // digits (lengths, indices) are collapsed so that the class is stable across inputs
+    // digits (lengths, indices) are collapsed and quoted source text is dropped so that the class
+    // is stable across inputs
     let mut msg = String::new();
+    let mut in_quote = false;
     for c in info.message.chars() {
+        if c == '`' {
+            in_quote = !in_quote;
+            if !in_quote {
+                msg.push_str("`..`");
+            }
+            continue;
+        }
+        if in_quote {
+            continue;
+        }
         if c.is_ascii_digit() {
             if !msg.ends_with('#') {
                 msg.push('#');
@@ -338,6 +350,11 @@ pub fn load_known(property: &str) -> Vec<KnownFinding> {
 
 impl KnownFinding {
     pub fn matches(&self, f: &Failure) -> bool {
+        // findings with a defect model are attributed by the engine that owns the model; a
+        // finding without any signature would match everything and is never used for matching
+        if self.model.is_some() || (self.signature.is_empty() && self.cases.is_none()) {
+            return false;
+        }
         (self.api == "*" || self.api == f.api)
             && f.signature.contains(&self.signature)
             && self.input_re.is_match(&f.input)
